@@ -326,8 +326,7 @@ Proof.
     change (Zpos 2000000) with (2 * max_den). lia.
 Qed.
 
-(* zero, and anything closer to zero than 1/(2*10^6)... is not claimed; what the validators
-   need: a non-zero value may be rounded to zero only if it is tiny *)
+(* what the score validator needs: only a tiny value can be rounded to zero *)
 Corollary limit_den_zero_only_if_tiny : forall q : Q,
   (limit_den q == 0)%Q -> (Qabs q <= 1 # 2000000)%Q.
 Proof.
